@@ -162,7 +162,7 @@ func Gen(seed int64, idx int, prof string) Case {
 	case "object-faults":
 		objectFaults("action", "action", "noaction", "error:404", "error:410", "error:500", "error:422")
 	case "expired-action":
-		objectFaults("action", "expired", "expired", "soon")
+		objectFaults("action", "expired", "expired-in", "expired-in-future-at", "soon")
 	case "mixed":
 		adapterFaults("ok", "ok", "retry", "fatal")
 		objectFaults("action", "action", "noaction", "error:404", "expired")
